@@ -48,6 +48,8 @@ CLASS_MUTANTS = [
     ('pyclifford/paulialg.py', 'Pauli.__matmul__#Pauli', 'p = (self.p + other.p + ipow(self.g, other.g)) % 4', 'p = (self.p + other.p + ipow(other.g, self.g)) % 4'),
     ('pyclifford/circuit.py', 'CliffordGate.backward#generator_local', '                obj.rotate_by(-self.generator, mask(self.qubits, obj.N))', '                obj.rotate_by(self.generator, mask(self.qubits, obj.N))'),
     ('pyclifford/circuit.py', 'CliffordGate.compile#generator', 'self.backward_map = clifford_rotation_map(-self.generator)', 'self.backward_map = clifford_rotation_map(self.generator)'),
+    ('pyclifford/paulialg.py', 'pauli#chars', "        elif mu == 5 or mu == '-':\n            p = 2", "        elif mu == 5 or mu == '-':\n            p += 2"),
+    ('pyclifford/paulialg.py', 'pauli#codes', '        return Pauli(g[:-2*h], p)', '        return Pauli(g[:-h], p)'),
     ('pyclifford/circuit.py', 'CliffordGate.independent_from', 'return len(set(self.qubits) & set(other_gate.qubits))==0', 'return len(set(self.qubits[1:]) & set(other_gate.qubits))==0'),
 ]
 
